@@ -12,6 +12,7 @@ import Mathlib.Tactic.Linarith
 
 General `Q`, `d`, `L`; no primality is proved here.
 -/
+set_option linter.unusedSimpArgs false
 namespace Spake2Verif.EdLadder
 open Spake2Model Spake2Model.Gen.Ed Spake2Verif.Edw Spake2Verif.EdBridge
 
@@ -46,14 +47,19 @@ theorem safe_slowAux_rep (d : ℤ) (hd : (d : ZMod Q) = C.d) (pt : ℤ × ℤ ×
       omega
     subst hn
     rw [zero_zsmul]
-    exact xform_zero_rep C
+    -- the n == 0 result, written as `xform_affine_to_extended((0,1))` or as the literal `(0,1,1,0)`
+    have hb : scalarmult_element_safe_slowAux (Q : ℤ) d pt 0 0 = ((0 : ℤ), (1 : ℤ), (1 : ℤ), (0 : ℤ)) := by
+      simp only [scalarmult_element_safe_slowAux, xform_zero_eq]
+    rw [hb]
+    exact zero_rep_literal C
   | succ fuel ih =>
     intro n h0 h1
     rw [scalarmult_element_safe_slowAux]
     by_cases hn : n = 0
     · subst hn
       rw [zero_zsmul]
-      simpa using xform_zero_rep C
+      simp only [decide_true, if_true, xform_zero_eq]
+      exact zero_rep_literal C
     · obtain ⟨hh0, hh1⟩ := half_bounds h0 h1
       obtain ⟨rrec, -⟩ := ih (n / 2) hh0 hh1
       have rdbl := double_element_rep C rrec.xyz
@@ -110,14 +116,19 @@ theorem fastAux_rep (pt : ℤ × ℤ × ℤ × ℤ) (P : Point C) (r : Rep C pt 
       omega
     subst hn
     rw [zero_zsmul]
-    exact xform_zero_rep C
+    -- the n == 0 result, written as `xform_affine_to_extended((0,1))` or as the literal `(0,1,1,0)`
+    have hb : scalarmult_elementAux (Q : ℤ) pt 0 0 = ((0 : ℤ), (1 : ℤ), (1 : ℤ), (0 : ℤ)) := by
+      simp only [scalarmult_elementAux, xform_zero_eq]
+    rw [hb]
+    exact zero_rep_literal C
   | succ fuel ih =>
     intro n h0 h1 hnL
     rw [scalarmult_elementAux]
     by_cases hn : n = 0
     · subst hn
       rw [zero_zsmul]
-      simpa using xform_zero_rep C
+      simp only [decide_true, if_true, xform_zero_eq]
+      exact zero_rep_literal C
     · obtain ⟨hh0, hh1⟩ := half_bounds h0 h1
       obtain ⟨rrec, -⟩ := ih (n / 2) hh0 hh1 (by omega)
       have rdbl := double_element_rep C rrec.xyz
